@@ -23,6 +23,7 @@ class Taint:
         self.summaries = summaries
         self.follow = follow_calls
         self.t = defaultdict(set)
+        self.parents = defaultdict(set)     # a borrowed view (Entry, &mut V, guard) -> the variables it was borrowed from
         self.extra_bodies = {}
 
     def seed(self, body, local, label):
@@ -63,7 +64,26 @@ class Taint:
         cur = self.t[var]
         n = len(cur)
         cur |= labels
-        return len(cur) != n
+        changed = len(cur) != n
+        # what is stored through a borrowed view (map.entry(k).or_insert_with(f), *map.get_mut(k) = v) is stored in its owner
+        if var in self.parents:
+            seen, work = {var}, list(self.parents[var])
+            while work:
+                p = work.pop()
+                if p in seen:
+                    continue
+                seen.add(p)
+                pc = self.t[p]
+                m = len(pc)
+                pc |= labels
+                changed = changed or len(pc) != m
+                work.extend(self.parents.get(p, ()))
+        return changed
+
+    _VIEW_TYPES = ("Entry<", "RefMut<", "Guard<", "IterMut<", "ValuesMut<")
+
+    def _is_view(self, ty):
+        return ty.startswith("&mut") or any(k in ty for k in self._VIEW_TYPES)
 
     def _closure_of(self, b, op):
         """closure body if the operand is (a reference to) a closure value created in b"""
@@ -103,6 +123,17 @@ class Taint:
                                 if self._add((c.key, "up", j), self.op_taint(b, op)):
                                     changed = True
                             labels |= self.t.get((c.key, 0), set())
+                    if rv["rv"] in ("use", "cast", "ref", "rawptr") and not pl["p"]:
+                        src = F.op_place(rv["op"]) if rv["rv"] in ("use", "cast") else rv["pl"]
+                        if src is not None:
+                            sv = self._var_of_place(b, src)
+                            ps = set(self.parents.get(sv, ()))
+                            if rv["rv"] in ("ref", "rawptr") and rv.get("bk") in ("mut", "Mut"):
+                                ps.add(sv)
+                            dv = self._var_of_place(b, pl)
+                            if ps - self.parents[dv] - {dv}:
+                                self.parents[dv] |= ps - {dv}
+                                changed = True
                     if self._add(self._var_of_place(b, pl), labels):
                         changed = True
                     if labels and pl["p"] and pl["p"][0]["k"] == "deref":
@@ -162,6 +193,22 @@ class Taint:
                                 for v in tgt:
                                     if self._add(v, labels):
                                         changed = True
+                    if not c.dest["p"] and self._is_view(b.local_ty(c.dest["l"])):
+                        dv = self._var_of_place(b, c.dest)
+                        ps = set()
+                        for a in c.args:
+                            apl = F.op_place(a)
+                            if apl is None:
+                                continue
+                            av = self._var_of_place(b, apl)
+                            if self._is_view(b.local_ty(apl["l"])):
+                                ps.add(av)
+                                ps |= set(self._mut_target(b, a))
+                            ps |= self.parents.get(av, set())
+                        ps.discard(dv)
+                        if ps - self.parents[dv]:
+                            self.parents[dv] |= ps
+                            changed = True
                     if self._add(self._var_of_place(b, c.dest), labels):
                         changed = True
         return self
